@@ -22,7 +22,18 @@ Definition spec_ok (cs : tcase) : bool :=
       match final_name init o with
       | Some (f, reserve) =>
           match r with
-          | ROk => protocol_complete_ok f reserve evs
+          | ROk =>
+              protocol_complete_ok f reserve evs &&
+              (* new-complete: "the complete new record together with all auxiliary lines" - what follows
+                 the first line of the old file is in the new file byte for byte *)
+              match o with
+              | OpUpdate _ _ =>
+                  match dlookup f init, dlookup f after with
+                  | Some (File old), Some (File new) => beq (after_first_line new) (after_first_line old)
+                  | _, _ => false
+                  end
+              | _ => true
+              end
           | RErr =>
               (* a failed (refused or faulted) operation: a prefix of the discipline followed by
                  its clean-up - in particular no write to, truncation of or rename over a live file *)
